@@ -361,7 +361,10 @@ def _round(v: Any, nd: Any = None) -> Any:
     if _is_big_integral(v):
         return Decimal(v)
 
-    return Decimal(str(round(v, nd)))
+    rounded = round(v, nd)
+
+    # an int goes into a Decimal as it is: str() refuses integers of more than 4300 digits
+    return Decimal(rounded) if isinstance(rounded, int) else Decimal(str(rounded))
 
 
 FUNCTIONS: Dict[str, Callable] = {
@@ -405,8 +408,8 @@ FUNCTIONS: Dict[str, Callable] = {
 
     # math:
     'round': _round,
-    'floor': lambda *args: Decimal(args[0]) if _is_big_integral(*args) else Decimal(str(math.floor(*args))),
-    'ceil': lambda *args: Decimal(args[0]) if _is_big_integral(*args) else Decimal(str(math.ceil(*args))),
+    'floor': lambda *args: Decimal(args[0]) if _is_big_integral(*args) else Decimal(math.floor(*args)),
+    'ceil': lambda *args: Decimal(args[0]) if _is_big_integral(*args) else Decimal(math.ceil(*args)),
     'abs': lambda v: Decimal(abs(v)),
     'min': min,
     'max': max,
